@@ -6,6 +6,7 @@ tape-chosen line-level pre-emption inside listed functions), then the yielding t
 the next thread to run from the decision tape and hands it the baton.  When nobody is runnable the
 virtual clock jumps to the earliest wake-up time; when there is none the run ends in DEADLOCK.
 """
+import gc
 import hashlib
 import math
 import sys
@@ -60,6 +61,8 @@ class Sched(object):
         self.steps = 0                  # scheduling decisions with a real choice
         self.decisions = 0              # all scheduling decisions (also forced ones)
         self.hold_choices = (0, 3, 12, 50, 200)
+        self.gc_tick = 0
+        self.in_gc = False
         self.unlock_hold = None         # (n, d): chance that a thread releasing a shared lock is held back
         self.stall_choices = ()         # virtual seconds a pre-empted thread may lose (off by default)
         self.stall_chance = (1, 2)
@@ -211,7 +214,10 @@ class Sched(object):
             if wt > self.now:
                 self.now = wt
                 self.log('clk', round(wt - self.start_time, 6))
+                self._gc()
         self.decisions += 1
+        if self.decisions % 256 == 0:
+            self._gc()
         if len(run) == 1:
             return run[0]
         self.steps += 1
@@ -243,6 +249,18 @@ class Sched(object):
                 return cur_thread
             return order[1 + self.tape.draw(len(order) - 1, 'sch')]
         return order[self.tape.draw(len(order), 'sch')]
+
+    def _gc(self):
+        """Deterministic garbage collection: young objects at every call, older generations at every
+        8th / 64th.  Finalizers that touch the simulation (socket close, lock release inside a
+        generator's cleanup) take effect without becoming scheduling points."""
+        self.gc_tick += 1
+        gen = 2 if self.gc_tick % 64 == 0 else 1 if self.gc_tick % 8 == 0 else 0
+        self.in_gc = True
+        try:
+            gc.collect(gen)
+        finally:
+            self.in_gc = False
 
     def _handoff(self, frm, to, why):
         self.switches += 1
@@ -283,7 +301,7 @@ class Sched(object):
 
     # ------------------------------------------------------------------ yield points
     def in_sim(self):
-        if not self.running or self.stopped:
+        if not self.running or self.stopped or self.in_gc:
             return False
         c = self.current
         return c is not None and c.ident == threading.get_ident()
